@@ -252,4 +252,3 @@ func c20Field[S algebra.PrimeFieldElement[S]](c *Ctx, f algebra.PrimeField[S], c
 	}
 }
 
-func c20Poly(c *Ctx) {}
